@@ -90,12 +90,21 @@ func (x *DotLookup) Visit(v func(Expression)) {
 }
 
 func (x *DotLookup) String() string {
+	container := x.Container.String()
+
 	// a numeric lookup directly after another numeric lookup (foo.1 .2) needs a separating space,
 	// otherwise the two would be read back as one decimal (foo.1.2)
-	if inner, isDot := x.Container.(*DotLookup); isDot && isDigits(inner.Lookup) && isDigits(x.Lookup) {
-		return fmt.Sprintf("%s .%s", x.Container.String(), x.Lookup)
+	if isDigits(x.Lookup) && endsInNumericLookup(container) {
+		return fmt.Sprintf("%s .%s", container, x.Lookup)
 	}
-	return fmt.Sprintf("%s.%s", x.Container.String(), x.Lookup)
+	return fmt.Sprintf("%s.%s", container, x.Lookup)
+}
+
+// whether the printed expression ends in a numeric lookup, e.g. foo.1 - which can be a dot lookup or a context
+// reference which has been renamed to a path
+func endsInNumericLookup(s string) bool {
+	trimmed := strings.TrimRight(s, "0123456789")
+	return len(trimmed) < len(s) && strings.HasSuffix(trimmed, ".")
 }
 
 func isDigits(s string) bool {
